@@ -6,10 +6,10 @@ KEY_C = "C05:chained-comparison-middle-operand-evaluated-twice"
 
 
 def run(ctx: Ctx) -> int:
-    n = ctx.pick(60, 800)
+    n = ctx.pick(60, 600)
     from lib import e4_corpus
     nfixed = len(e4_corpus.corpus("c05", n, ctx.seed)) - n       # fixed programs + array-flavoured generated ones, all outside the regions
-    jobs = e4_check.jobs_for(ctx, "c05", n, batch=1, timeout=ctx.pick(150, 1200), total=n + nfixed, single_upto=12)
+    jobs = e4_check.jobs_for(ctx, "c05", n, batch=1, timeout=ctx.pick(150, 900), total=n + nfixed, single_upto=12)
     for region, key in (("hoist-order", KEY_H), ("chain-middle", KEY_C)):
         want = ctx.pick(6, 30)
         have = len(e4_corpus.corpus("c05", want, ctx.seed, region))     # the generator may find fewer programs inside a region
@@ -22,7 +22,7 @@ def run(ctx: Ctx) -> int:
                   "inputs": "x in [-3, 4], y in [-1000, 1000], results of the first 8 opaque calls unbounded ints"}
     ctx.functions_encoded.append("stage 2: checker/expr_checker.py + stmt_checker.py + cfg_checker.py (operator -> dunder resolution incl. reflected forms, inserted coercions, for -> __iter__/__next__/Option protocol, "
                                  "place decomposition), std/iter.py range / Range.__next__ and std/num.py bindings as reached by the programs, interpreted by lib/e5.py")
-    ctx.bounds["stage 2"] = "first %d programs of the corpus through the checked CFGs; opaque results bounded by |r| <= 1000; paths with a 64-bit overflow, inside a known C04 region or out of fuel are outside" % ctx.pick(30, 400)
+    ctx.bounds["stage 2"] = "first %d programs of the corpus through the checked CFGs; opaque results bounded by |r| <= 1000; paths with a 64-bit overflow, inside a known C04 region or out of fuel are outside" % ctx.pick(30, 250)
     ctx.outside_claim = ["everything after the emitted HUGR (packaging, validation, LLVM lowering, run-time scheduling of unordered pure nodes)", "qubit allocation / measurement order", "arrays of non-copyable elements other than arrays, array comprehensions, array indices outside [0, n) (C19)",
                          "programs inside the known-finding regions (there only the finding itself is re-established)"]
     ctx.assumptions = ["a block's statements execute in list order, its predicate last; successors[1] = true"]
@@ -36,12 +36,12 @@ def run(ctx: Ctx) -> int:
         jobs += e4_check.jobs_for(ctx, "c05", 6, batch=1, timeout=ctx.pick(200, 600), region=region, key=key, total=have,
                                   harness="harness/E5_equiv.py", fn="h_equiv5")
     # stage 2 (E5): the same programs through the *checked* CFGs of the real front end (operator resolution, coercions, iterator protocol, 64-bit arithmetic)
-    jobs += e4_check.jobs_for(ctx, "c05", n, batch=1, timeout=ctx.pick(200, 1500), total=n + nfixed, harness="harness/E5_equiv.py", fn="h_equiv5", single_upto=12,
-                              upto=ctx.pick(30, 400))
+    jobs += e4_check.jobs_for(ctx, "c05", n, batch=1, timeout=ctx.pick(200, 900), total=n + nfixed, harness="harness/E5_equiv.py", fn="h_equiv5", single_upto=12,
+                              upto=ctx.pick(30, 250))
     # stage 3 (E7): the same programs through the HUGR that /repo's back end emits for them (lib/e7.py); the two subscript-order findings are
     # decided by the back end, so they are probed at this level as well
-    jobs += e4_check.jobs_for(ctx, "c05", n, batch=1, timeout=ctx.pick(200, 1500), total=n + nfixed, harness="harness/E7_equiv.py", fn="h_equiv7", single_upto=12,
-                              upto=ctx.pick(30, 300))
+    jobs += e4_check.jobs_for(ctx, "c05", n, batch=1, timeout=ctx.pick(200, 900), total=n + nfixed, harness="harness/E7_equiv.py", fn="h_equiv7", single_upto=12,
+                              upto=ctx.pick(30, 250))
     for region, key in (("subscript-order", "C05:subscript-of-temporary-evaluates-index-before-container"),
                         ("nested-subscript-order", "C05:nested-subscript-evaluates-outer-index-first")):
         have = len(e4_corpus.corpus("c05", 6, ctx.seed, region))
@@ -51,7 +51,7 @@ def run(ctx: Ctx) -> int:
                                  "func_compiler.py, core.py (CompilerContext.compile, track_hugr_side_effects, may_have_side_effect) and the std compilers reached by the programs: "
                                  "the emitted HUGR is interpreted by lib/e7.py")
     ctx.bounds["stage 3"] = ("first %d programs of the corpus through the emitted HUGR; same value bounds; every dataflow region must order its possibly side-effecting nodes "
-                             "(calls, panics, containers of those) by value / state-order edges" % ctx.pick(30, 300))
+                             "(calls, panics, containers of those) by value / state-order edges" % ctx.pick(30, 250))
     ctx.crosshair(jobs)
     v = e4_check.collect_verdicts(ctx)
     e5r = e4_check.collect_e5(ctx)
